@@ -52,6 +52,10 @@ TECH = {
             'Built-in arithmetic element types, no NaN, no UB. Not decided: floating-point rounding (any association order of a sum is accepted); the scalar kernels rcp/rsqrt/madd (C07).'),
     'C05': ('order-atom truth tables, lattice-shape matching, polynomial normal form, corner-set enumeration on the dependent AST and typed instantiations; LLVM-IR identities against per-axis definitions',
             'Relies on C04 for vec min/max/anyLessThan. Not decided: rounding ("within rounding"), NaN bounds, correctness of xfmPoint itself (C06), conditioning of the affine map; clamp on inverted ranges is a precondition.'),
+    'C06': ('translation validation of identity drivers: LLVM-IR value-graph normal form of both sides (real compiler does overload resolution/inlining), exact rational-function identity with sympy',
+            'Real-number semantics of float operations; non-zero denominators; sin^2+cos^2=1 and the double-angle formulas as trig facts. Not decided: '
+            'tolerance vs condition number (rounding), slerp, orthogonal(), frame() (outside the IR fragment), SIMD rcp/rsqrt approximations (C07). '
+            'AffineSpaceT::rotate(p, quaternion) cannot be instantiated at all (observation).'),
     'C07': ('LLVM-IR value-graph normal form of identity drivers + interval bound of the Newton-Raphson error polynomial; AST purity rule',
             'Real-number reading of float operations with relative rounding <= 2^-24 per operation (no under/overflow); rcpss/rsqrtss estimate error '
             '<= 1.5*2^-12 (Intel SDM); no NaN/-0. Not decided: denormal, -0, NaN and huge inputs incl. rcp_safe on them; monotonicity/accuracy of pow; '
